@@ -102,6 +102,10 @@ def mechanism(v, dg):
       return c01_diag.K_NOTRUN
     if dg.get("outside_attr"):
       return c01_diag.K_OUTSIDE_ATTR
+    if dg.get("closure_ret"):
+      return c01_diag.K_CLOSURE
+    if dg.get("notrun_callee"):
+      return c01_diag.K_NOTRUN_CALLEE
     if dg.get("param_rebound") and vw.get("invisible"):
       return c01_diag.K_PARAM_REBOUND
     if dg.get("inplace") and vw.get("invisible"):
@@ -215,12 +219,24 @@ def judge(src, trace, res, diag=None):
     if not ok:
       viol.append({"kind": "return", "name": qual, "line": line,
                    "declared": " | ".join(pytd_str(rt) for rt in rts), "value": brief(sh)})
-      if diag is not None and len(parts) == 2:
+      if diag is not None:
         from vf.oracle import c01_diag
         try:
-          hits = c01_diag.outside_attr_signature(pyast.parse(trace["src"]), set(trace.get("executed_lines") or ()))
-          if hits:
-            diag[qual] = {"outside_attr": hits}
+          tree_ = pyast.parse(trace["src"])
+          ex_ = set(trace.get("executed_lines") or ())
+          dgr = {}
+          if len(parts) == 2:
+            hits = c01_diag.outside_attr_signature(tree_, ex_)
+            if hits:
+              dgr["outside_attr"] = hits
+          nrc = c01_diag.notrun_callee_signature(
+              tree_, qual, ex_, {(q.split('.')[-1], ln) for q, ln, _ in trace['returns']})
+          if nrc:
+            dgr["notrun_callee"] = nrc
+          cl_ = c01_diag.closure_signature(tree_, {parts[-1]})
+          if cl_:
+            dgr["closure_ret"] = cl_
+          diag[qual] = dgr
         except Exception as e:  # pylint: disable=broad-except
           diag[qual] = {"error": str(e)}
   return items, viol
